@@ -27,13 +27,19 @@ pub trait Scenario: Sync {
     fn key(&self, w: &World, mon: &Self::Mon) -> String;
     /// Called before the first step of every replay (e.g. to register extra state).
     fn setup(&self, _w: &mut World, _mon: &mut Self::Mon) {}
+    /// Situations of interest that hold in this state; counted per transition for the evidence
+    /// (vacuity check: did the guarded situations actually occur?).
+    fn tags(&self, _w: &World, _mon: &Self::Mon) -> Vec<&'static str> {
+        vec![]
+    }
 }
 
 pub struct Replayed<M> {
     pub world: World,
     pub mon: M,
     pub violation: Option<(&'static str, String)>,
-    pub choice_log: Vec<(usize, usize)>,
+    /// Choice points of the last event: (arity, digit taken, group, group is a shuffle).
+    pub choice_log: Vec<(usize, usize, usize, bool)>,
 }
 
 pub fn replay<S: Scenario>(s: &S, dir: &PathBuf, hist: &[Step], verbose: bool) -> Replayed<S::Mon> {
@@ -55,7 +61,10 @@ pub fn replay<S: Scenario>(s: &S, dir: &PathBuf, hist: &[Step], verbose: bool) -
                 // the scripted digits are consumed in order over the sub-steps of one event
                 world.step(ev, &digits[used.min(digits.len())..]);
                 used += world.choice_log.len();
-                choice_log.extend(world.choice_log.iter().cloned());
+                let offset = choice_log.last().map(|l: &(usize, usize, usize, bool)| l.2 + 1).unwrap_or(0);
+                for (l, g) in world.choice_log.iter().zip(world.choice_groups.iter()) {
+                    choice_log.push((l.0, l.1, g.0 + offset, g.1));
+                }
             }
             violation = s.check(&world, &mut mon, Some(sym));
             if verbose {
@@ -74,6 +83,7 @@ pub fn replay<S: Scenario>(s: &S, dir: &PathBuf, hist: &[Step], verbose: bool) -
                     }
                 }
                 println!("   state: {}", s.key(&world, &mon));
+                println!("   situations: {:?}", s.tags(&world, &mon));
                 if let Some(d) = &world.dead {
                     println!("   MANAGER DEAD: {}", d);
                 }
@@ -99,6 +109,7 @@ pub struct Stats {
     pub terminal_states: u64,
     pub samples: Vec<Value>,
     pub choice_points: u64,
+    pub tags: std::collections::BTreeMap<String, u64>,
 }
 
 impl Stats {
@@ -112,6 +123,9 @@ impl Stats {
         self.choice_points += o.choice_points;
         self.exhaustive &= o.exhaustive;
         self.samples.extend(o.samples.iter().cloned());
+        for (k, v) in &o.tags {
+            *self.tags.entry(k.clone()).or_default() += v;
+        }
     }
 }
 
@@ -122,6 +136,7 @@ struct Node {
 
 struct Child {
     hist: Vec<Step>,
+    tags: Vec<&'static str>,
     key: String,
     enabled: Vec<String>,
     violation: Option<(&'static str, String)>,
@@ -132,31 +147,62 @@ fn key_hash(k: &str) -> u128 {
     u128::from_be_bytes(d[..16].try_into().unwrap())
 }
 
-/// Run (hist + sym) for every digit vector of the choice points met in the last step.
+/// Alternatives of one group of choice points. A shuffle of m elements is explored through the
+/// m digit vectors that bring each element to the front once (the chooser returns the first
+/// acceptable element of the shuffled, stably sorted list, so these cover every outcome of the
+/// call without walking all m! permutations); a plain choice through all its values.
+fn group_alternatives(arities: &[usize], is_shuffle: bool) -> Vec<Vec<usize>> {
+    if is_shuffle {
+        let m = arities[0];
+        let mut alts = vec![vec![0; arities.len()]];
+        for k in 1..m {
+            let mut d = vec![0; arities.len()];
+            // the draw for position i = k is the (m-1-k)-th of the group
+            if m - 1 - k < d.len() {
+                d[m - 1 - k] = k;
+                alts.push(d);
+            }
+        }
+        alts
+    } else {
+        (0..arities[0]).map(|v| vec![v]).collect()
+    }
+}
+
+/// Run (hist + sym) for every alternative of every choice group met in the last event.
 fn expand_child<S: Scenario>(s: &S, dir: &PathBuf, hist: &[Step], sym: &str, depth: usize, out: &mut Vec<Child>, execs: &mut u64, choice_points: &mut u64) {
-    fn rec<S: Scenario>(s: &S, dir: &PathBuf, hist: &[Step], sym: &str, prefix: Vec<usize>, depth: usize, out: &mut Vec<Child>, execs: &mut u64, choice_points: &mut u64) {
+    fn rec<S: Scenario>(s: &S, dir: &PathBuf, hist: &[Step], sym: &str, prefix: Vec<usize>, group_idx: usize, depth: usize, out: &mut Vec<Child>, execs: &mut u64, choice_points: &mut u64) {
         let mut h = hist.to_vec();
         h.push((sym.to_string(), prefix.clone()));
         let r = replay(s, dir, &h, false);
         *execs += 1;
         let log = r.choice_log.clone();
-        // normalise the recorded digits to what was really taken
-        let taken: Vec<usize> = log.iter().map(|(_, d)| *d).collect();
-        h.last_mut().unwrap().1 = if s.explore_choices() { taken.clone() } else { vec![] };
-        let enabled = if r.violation.is_some() || r.world.dead.is_some() { vec![] } else { s.enabled(&r.world, &r.mon, depth + 1) };
-        out.push(Child { key: s.key(&r.world, &r.mon), hist: h, enabled, violation: r.violation });
-        if s.explore_choices() {
-            for i in prefix.len()..log.len() {
-                *choice_points += 1;
-                for alt in 1..log[i].0 {
-                    let mut p = taken[..i].to_vec();
-                    p.push(alt);
-                    rec(s, dir, hist, sym, p, depth, out, execs, choice_points);
-                }
+        // split the log into groups
+        let mut groups: Vec<(usize, usize, bool)> = vec![]; // (start, len, is_shuffle)
+        for (i, l) in log.iter().enumerate() {
+            match groups.last_mut() {
+                Some(g) if log[g.0].2 == l.2 => g.1 += 1,
+                _ => groups.push((i, 1, l.3)),
             }
         }
+        if !s.explore_choices() || group_idx >= groups.len() {
+            let taken: Vec<usize> = log.iter().map(|l| l.1).collect();
+            h.last_mut().unwrap().1 = if s.explore_choices() { taken } else { vec![] };
+            let enabled = if r.violation.is_some() || r.world.dead.is_some() { vec![] } else { s.enabled(&r.world, &r.mon, depth + 1) };
+            out.push(Child { key: s.key(&r.world, &r.mon), tags: s.tags(&r.world, &r.mon), hist: h, enabled, violation: r.violation });
+            return;
+        }
+        let (start, len, is_shuffle) = groups[group_idx];
+        *choice_points += 1;
+        let arities: Vec<usize> = log[start..start + len].iter().map(|l| l.0).collect();
+        drop(r);
+        for alt in group_alternatives(&arities, is_shuffle) {
+            let mut p: Vec<usize> = log[..start].iter().map(|l| l.1).collect();
+            p.extend(alt);
+            rec(s, dir, hist, sym, p, group_idx + 1, depth, out, execs, choice_points);
+        }
     }
-    rec(s, dir, hist, sym, vec![], depth, out, execs, choice_points);
+    rec(s, dir, hist, sym, vec![], 0, depth, out, execs, choice_points);
 }
 
 pub fn hist_json(h: &[Step]) -> Value {
@@ -250,6 +296,9 @@ pub fn bfs<S: Scenario>(ctx: &Ctx, s: &S, max_depth: usize, det_every: u64) -> S
                     ctx.violation(class, format!("[{}] after {:?}: {}", scen, c.hist.iter().map(|h| h.0.as_str()).collect::<Vec<_>>(), why), json!({"scenario": scen, "history": hist_json(&c.hist)}));
                     continue;
                 }
+                for t in &c.tags {
+                    *stats.tags.entry(t.to_string()).or_default() += 1;
+                }
                 if visited.insert(key_hash(&c.key)) {
                     stats.states += 1;
                     next.push(Node { hist: c.hist, enabled: c.enabled });
@@ -299,6 +348,7 @@ pub fn stats_outcome(stats: &Stats, o: &mut crate::core::Outcome) {
     o.set("choice_points_expanded", json!(stats.choice_points));
     o.set("terminal_states", json!(stats.terminal_states));
     o.set("exhaustive", json!(stats.exhaustive));
+    o.set("transitions_in_which_situation_occurred", json!(stats.tags));
     if stats.samples.is_empty() {
         o.set("samples", json!([{"note": "no open frontier: every history ended"}]));
     } else {
